@@ -26,6 +26,11 @@ type c14P struct {
 	// 0xffffffff ("unspecified", also the largest stamp); 2 stamps cross
 	// 0x7fffffff/0x80000000; 3 stamps start at 0; 4 stamps just below 0xffffffff
 	TS int
+	// Prior in-session commands (Get Device ID) and Again earlier retrievals on the same
+	// session precede the judged retrieval: what a session has carried before says
+	// nothing about what the repository holds
+	Prior int `json:",omitempty"`
+	Again int `json:",omitempty"`
 }
 
 type c14Batch struct {
@@ -154,7 +159,14 @@ func c14Exec(run *ev.Run, c ev.Case) {
 				case 2:
 					first = 0xfffe
 				}
-				c14One(run, c14P{Seed: b.Seed*1000 + int64(i), NRecs: n, FirstID: first, Fault: "none", Suite: i % 9})
+				p := c14P{Seed: b.Seed*1000 + int64(i), NRecs: n, FirstID: first, Fault: "none", Suite: i % 9}
+				switch i % 8 {
+				case 3:
+					p.Prior = []int{5, 40, 61, 62, 63, 64, 130, 260, 520}[(i/8)%9]
+				case 6:
+					p.Again = 1 + (i/8)%3
+				}
+				c14One(run, p)
 			}
 		case "faults":
 			// one repository, every injection point of its walk, one fault kind per case
@@ -290,7 +302,7 @@ func c14One(run *ev.Run, p c14P) {
 			}
 		}
 	}
-	e.BMC.Handler = repo.Handle
+	e.BMC.Handler = refbmc.Chain(repo.Handle, refbmc.Fixed(6, 0x01, 0, []byte{0x20, 0x81, 0x03, 0x15, 0x02, 0xbf, 0x57, 0x01, 0x00, 0x34, 0x12}))
 	ctx, cancel := bg(12 * time.Second)
 	defer cancel()
 	sess, err := e.OpenSession(ctx, stdSuites()[p.Suite%9])
@@ -298,15 +310,54 @@ func c14One(run *ev.Run, p c14P) {
 		run.Violation("C14:handshake-failed", err.Error(), cs, nil)
 		return
 	}
+	for i := 0; i < p.Prior; i++ {
+		if _, err := sess.GetDeviceID(ctx); err != nil {
+			run.Violation("C14:prior-command-failed", fmt.Sprintf("Get Device ID %d of %d before the retrieval: %v", i+1, p.Prior, err), cs, nil)
+			return
+		}
+	}
+	for i := 0; i < p.Again; i++ {
+		if _, err := bmc.RetrieveSDRRepository(ctx, sess); err != nil {
+			run.Violation("C14:retrieval-failed:earlier-on-session", fmt.Sprintf("retrieval %d of %d before the judged one (%d records): %v", i+1, p.Again, p.NRecs, err), cs, nil)
+			return
+		}
+	}
+	logFrom := len(repo.Requests())
+	sentFrom := e.T.Transmissions()
 	var got bmc.SDRRepository
 	pv, st := safe(func() { got, err = bmc.RetrieveSDRRepository(ctx, sess) })
 	desc := fmt.Sprintf("repository of %d records (first ID %#x) fault %s before request %d/%d", p.NRecs, base[0].rec.ID, p.Fault, p.At, p.At2)
+	if p.Prior > 0 || p.Again > 0 {
+		desc += fmt.Sprintf(" after %d commands and %d retrievals on the session", p.Prior, p.Again)
+	}
 	if pv != nil {
 		run.Violation("C14:panic:"+panicSite(st), fmt.Sprintf("%s: %v\n%s", desc, pv, trimStack(st)), cs, nil)
 		return
 	}
 	log := repo.Requests()
 	run.Event("repository-requests", len(log))
+	run.Max("commands_in_one_session", float64(len(log)+p.Prior))
+	if p.Fault == "none" && pv == nil {
+		// Every request of a fault-free case is answered, once, with a valid response by a conforming
+		// repository device: nothing justifies sending a request again, and a walk over distinct
+		// record IDs never asks the same thing twice in a row.
+		judged := log[logFrom:]
+		if sent := e.T.Transmissions() - sentFrom; sent != len(judged) {
+			run.Violation("C14:transmissions-without-cause", fmt.Sprintf("%s: %d datagrams transmitted for %d repository requests served", desc, sent, len(judged)), cs, nil)
+			return
+		}
+		for i := 1; i < len(judged); i++ {
+			a, b := judged[i-1], judged[i]
+			if a.CC == 0 && a.Kind == b.Kind && a.Kind == "getsdr" && a.ReqResv == b.ReqResv && a.RecID == b.RecID && a.Off == b.Off && a.Len == b.Len {
+				n := 1
+				for j := i + 1; j < len(judged) && judged[j].Kind == a.Kind && judged[j].RecID == a.RecID && judged[j].Off == a.Off; j++ {
+					n++
+				}
+				run.Violation("C14:answered-request-sent-again", fmt.Sprintf("%s: Get SDR record %#x offset %d length %d was answered validly (request %d of the session) and then sent again %d time(s); err=%v", desc, a.RecID, a.Off, a.Len, logFrom+i+p.Prior, n, err), cs, nil)
+				return
+			}
+		}
+	}
 	if err != nil {
 		key := "C14:retrieval-failed"
 		for _, x := range base {
